@@ -182,7 +182,7 @@ def driver(race=False):
     return _built[race]
 
 
-def run_driver(args, timeout=1800, race=False, env=None, stdin=None, cwd=None):
+def run_driver(args, timeout=1800, race=False, env=None, stdin=None, cwd=None, load=True):
     """Runs a driver sub-command that writes a result file given by '-out'. Returns the result."""
     out = None
     for i, a in enumerate(args):
@@ -202,7 +202,7 @@ def run_driver(args, timeout=1800, race=False, env=None, stdin=None, cwd=None):
         if p.returncode != 0 or (out and not os.path.exists(out)):
             tail = open(os.path.join(run, "driver.log"), errors="replace").read()[-3000:]
             raise Inconclusive("driver failed (rc=%d): %s\n%s" % (p.returncode, " ".join(map(str, args[:3])), tail))
-        return json.load(open(out)) if out else None
+        return json.load(open(out)) if (out and load) else None
     finally:
         if not cwd:
             shutil.rmtree(run, ignore_errors=True)
